@@ -106,6 +106,8 @@ pub struct ResponseHandler<T> { h: Box<dyn FnOnce(T) -> GneissResult<()> + Send 
 pub struct Encoder { steps: VecDeque<u8> }
 impl Encoder {
     #[verifier::external_body]
+    pub fn new() -> (r: Encoder) { unimplemented!() }
+    #[verifier::external_body]
     pub fn reset(&mut self, packet: &MqttPacket, context: &EncodingContext) -> (r: GneissResult<()>) { unimplemented!() }
     #[verifier::external_body]
     pub fn encode(&mut self, packet: &MqttPacket, dest: &mut Vec<u8>) -> (r: GneissResult<EncodeResult>)
@@ -118,6 +120,8 @@ impl Encoder {
 pub struct Decoder { scratch: Vec<u8> }
 //@struct gneiss-mqtt/src/decode.rs DecodingContext
 impl Decoder {
+    #[verifier::external_body]
+    pub fn new() -> (r: Decoder) { unimplemented!() }
     #[verifier::external_body]
     pub fn reset_for_new_connection(&mut self) { unimplemented!() }
     // Assumed contract of decode_bytes() inside the engine unit: packets are only appended to the output list and every decoded
@@ -138,6 +142,9 @@ impl Decoder {
 pub struct OutboundResolverCell { c: std::cell::RefCell<u8> }
 #[verifier::external_body]
 pub struct OutboundResolverGuard { g: u8 }
+// R6 shim for `config.outbound_alias_resolver.take().unwrap_or((OutboundAliasResolverFactory::new_null_factory())())` wrapped in RefCell::new
+#[verifier::external_body]
+pub fn verif_resolver_cell() -> (r: OutboundResolverCell) { unimplemented!() }
 impl OutboundResolverCell {
     #[verifier::external_body]
     pub fn borrow_mut(&self) -> (r: OutboundResolverGuard) { unimplemented!() }
